@@ -1340,6 +1340,8 @@ class Interp(Ops, Builtins, DynOps):
         cf = Frame(fi.module, fi)
         self.bind_args(fi.node.args, args, kwargs, cf, node, fi.qual)
         short = fi.qual
+        for gname, gb in c.ghosts.items():
+            cf.vars[gname] = gb(self, cf) if callable(gb) else gb
         for nm, tx in c.requires:
             g = self.truth(self.eval_spec(tx, cf))
             if not self.spec:
